@@ -431,3 +431,53 @@ Definition linked_outcome (units : list Z) (t : terms) (l : list linked) : list 
       | Ok (l', t') => [0; dig (c_list c_linked l'); if list_eqb (c_list c_linked l') (c_list c_linked l) then 1 else 0; len t' - len t]
       end ++ [if forallb (wf_linked enc dec units) l then 1 else 0]
   end.
+
+(* ---- Stage 3 (4): filter effects (Psd/FilterFx.v) *)
+From PsdV Require Import Psd.FilterFx.
+Definition c_fchannel (c : fchannel) : list Z := [fc_written c] ++ c_opt c_z (fc_comp c) ++ c_bytes (fc_data c).
+Definition c_fextra (x : fextra) : list Z := [fx_written x] ++ c_list c_z (fx_rect x) ++ [fx_comp x] ++ c_bytes (fx_data x).
+Definition c_feffect (e : feffect) : list Z :=
+  c_bytes (fe_uuid e) ++ [fe_version e] ++ c_list c_z (fe_rect e) ++ [fe_depth e; fe_maxch e] ++
+  c_list c_fchannel (fe_channels e) ++ c_opt c_fextra (fe_extra e).
+Definition feffects_outcome (a : Z * list feffect) : list Z :=
+  let '(v, l) := a in
+  match write_feffects enc v l with
+  | Err e => [err_code e]
+  | Ok (b, n) =>
+      [0; n; dig b] ++
+      match read_feffects dec b with
+      | Err e => [err_code e]
+      | Ok (v', l') =>
+          let c' := v' :: c_list c_feffect l' in
+          [0; dig c'; if list_eqb c' (v :: c_list c_feffect l) then 1 else 0]
+      end ++ [if wf_feffects enc dec v l then 1 else 0]
+  end.
+
+(* ---- Stage 3 (5): typed image resources (Psd/Rsrc.v) *)
+From PsdV Require Import Psd.Rsrc.
+Definition rtable_code (k : rtable) : Z :=
+  match k with
+  | TAlphaIds => 1 | TGroupEnabled => 2 | TGroupInfo => 3 | THalftone => 4 | TTransfer => 5 | TDisplayInfo => 6
+  | TLayerSel => 7 | TGridGuides => 8 | TPrintFlagsInfo => 9 | TResolution => 10 | TPixelAspect => 11 | TPrintScale => 12
+  end.
+Definition c_rsrc (a : rpayload) : list Z :=
+  match a with
+  | RTable k head rows => [1; rtable_code k] ++ c_list c_z head ++ c_list (c_list c_z) rows
+  | RPrintFlags flags pf => [2] ++ c_list c_z flags ++ c_opt c_z pf
+  | RThumb vals data => [3] ++ c_list c_z vals ++ c_bytes data
+  | RVersionInfo v hc w r fv => [4; v; hc] ++ c_list c_z w ++ c_list c_z r ++ [fv]
+  | RUrlList l => [5] ++ c_list (fun u : Z * Z * list Z => let '(n, i, nm) := u in [n; i] ++ c_list c_z nm) l
+  | RUnicodes l => [6] ++ c_list (c_list c_z) l
+  | RPascals l => [7] ++ c_list c_bytes l
+  | RPascalStr n => [8] ++ c_bytes n
+  end.
+Definition rsrc_outcome (a : rpayload) : list Z :=
+  match write_rsrc enc a with
+  | Err e => [err_code e]
+  | Ok (b, n) =>
+      [0; n; dig b] ++
+      match reread_rsrc dec a b with
+      | Err e => [err_code e]
+      | Ok a' => [0; dig (c_rsrc a'); if list_eqb (c_rsrc a') (c_rsrc a) then 1 else 0]
+      end ++ [if wf_rsrc enc dec a then 1 else 0]
+  end.
